@@ -77,33 +77,35 @@ type Job struct {
 }
 
 type JobResult struct {
-	ID           string         `json:"id"`
-	Entry        string         `json:"entry"`
-	Paths        int            `json:"paths"`
-	PathStatus   map[string]int `json:"path_status"`
-	Violations   []Violation    `json:"violations"`
-	Reached      []string       `json:"reached"`
-	MissingReach []string       `json:"missing_reach"`
-	Inconclusive []string       `json:"inconclusive"`
-	Error        string         `json:"error,omitempty"`
-	Queries      int            `json:"queries"`
-	Sat          int            `json:"sat"`
-	Unsat        int            `json:"unsat"`
-	Unknown      int            `json:"unknown"`
-	SolverErrors int            `json:"solver_errors"`
-	SolverS      float64        `json:"solver_s"`
-	WallS        float64        `json:"wall_s"`
-	Steps        int64          `json:"steps"`
-	Checks       int            `json:"checks"`
-	Branches     int            `json:"branches"`
-	WitnessHits  int            `json:"witness_hits"`
-	MemoHits     int            `json:"memo_hits"`
-	Funcs        []string       `json:"funcs"`
-	Models       map[string]int `json:"models"`
-	Nondets      int            `json:"max_nondets"`
-	Sample       []string       `json:"sample_path,omitempty"`
-	Observed     []string       `json:"observed,omitempty"`
-	FailedChecks []string       `json:"failed_checks,omitempty"`
+	ID            string         `json:"id"`
+	Entry         string         `json:"entry"`
+	Paths         int            `json:"paths"`
+	PathStatus    map[string]int `json:"path_status"`
+	Violations    []Violation    `json:"violations"`
+	Reached       []string       `json:"reached"`
+	MissingReach  []string       `json:"missing_reach"`
+	Inconclusive  []string       `json:"inconclusive"`
+	Error         string         `json:"error,omitempty"`
+	Queries       int            `json:"queries"`
+	Sat           int            `json:"sat"`
+	Unsat         int            `json:"unsat"`
+	Unknown       int            `json:"unknown"`
+	SolverErrors  int            `json:"solver_errors"`
+	SolverS       float64        `json:"solver_s"`
+	WallS         float64        `json:"wall_s"`
+	Steps         int64          `json:"steps"`
+	Checks        int            `json:"checks"`
+	Branches      int            `json:"branches"`
+	WitnessHits   int            `json:"witness_hits"`
+	ChecksRewrite int            `json:"checks_by_rewriting"`
+	ChecksSolver  int            `json:"checks_by_solver"`
+	MemoHits      int            `json:"memo_hits"`
+	Funcs         []string       `json:"funcs"`
+	Models        map[string]int `json:"models"`
+	Nondets       int            `json:"max_nondets"`
+	Sample        []string       `json:"sample_path,omitempty"`
+	Observed      []string       `json:"observed,omitempty"`
+	FailedChecks  []string       `json:"failed_checks,omitempty"`
 }
 
 type baseState struct {
@@ -427,6 +429,8 @@ func runJob(P *Program, job *Job) (res *JobResult) {
 	res.Checks = stats.Checks
 	res.Branches = stats.Branches
 	res.WitnessHits = stats.WitnessHits
+	res.ChecksRewrite = stats.ChecksRewrite
+	res.ChecksSolver = stats.ChecksSolver
 	res.MemoHits = stats.MemoHits
 	for f := range stats.Funcs {
 		res.Funcs = append(res.Funcs, f)
